@@ -801,6 +801,68 @@ class _Inliner(object):
                 self.log.append("conditional expression with a helper call turned into a statement at line %d" % getattr(st, "lineno", 0))
                 self._blocks(new_if, scope)
                 return [new_if]
+        # x = [helper(a, b) for a, b in S] with a new helper that is more than one expression: as an explicit loop
+        # (`x = []; for a, b in S: x.append(helper(a, b))`) the call is in a position where it can be inlined
+        if isinstance(st, ast.Assign) and len(st.targets) == 1 and isinstance(st.targets[0], ast.Name) and isinstance(st.value, ast.ListComp) and \
+                len(st.value.generators) == 1 and not st.value.generators[0].ifs and not st.value.generators[0].is_async and isinstance(st.value.elt, ast.Call):
+            q_, r_ = self._callee_of(st.value.elt, scope)
+            if q_ is not None and self._inlinable(q_, r_, scope) is not None:
+                fn_ = self.new_defs[q_][0]
+                body_ = fn_.body[1:] if fn_.body and isinstance(fn_.body[0], ast.Expr) and isinstance(fn_.body[0].value, ast.Constant) else fn_.body
+                gen_ = st.value.generators[0]
+                acc_ = st.targets[0].id
+                uses_acc = any(isinstance(x_, ast.Name) and x_.id == acc_ for x_ in ast.walk(st.value))
+                if not (len(body_) == 1 and isinstance(body_[0], ast.Return)) and not uses_acc:
+                    init = ast.copy_location(ast.Assign(targets=[ast.Name(id=acc_, ctx=ast.Store())], value=ast.List(elts=[], ctx=ast.Load()), lineno=st.lineno), st)
+                    app = ast.Expr(value=ast.Call(func=ast.Attribute(value=ast.Name(id=acc_, ctx=ast.Load()), attr="append", ctx=ast.Load()), args=[st.value.elt], keywords=[]))
+                    loop = ast.copy_location(ast.For(target=gen_.target, iter=gen_.iter, body=[ast.copy_location(app, st)], orelse=[], lineno=st.lineno), st)
+                    ast.fix_missing_locations(init)
+                    ast.fix_missing_locations(loop)
+                    self.log.append("comprehension over helper %s turned into a loop at line %d" % (q_, getattr(st, "lineno", 0)))
+                    self.changed = True
+                    self._blocks(loop, scope)
+                    return [init, loop]
+        # x = yield self.helper(...) / yield self.helper(...) with a new @inlineCallbacks helper: awaiting a generator-based
+        # coroutine is running its body here (its own yields become ours, `return v` / returnValue(v) becomes `x = v`)
+        gen_call = None
+        if isinstance(st, ast.Assign) and len(st.targets) == 1 and _simple_target(st.targets[0]) and isinstance(st.value, ast.Yield) and isinstance(
+                st.value.value, ast.Call):
+            gen_call, gen_target = st.value.value, st.targets[0]
+        elif isinstance(st, ast.Expr) and isinstance(st.value, ast.Yield) and isinstance(st.value.value, ast.Call):
+            gen_call, gen_target = st.value.value, None
+        if gen_call is not None:
+            gq, grecv = self._callee_of(gen_call, scope)
+            gfn = self.new_defs[gq][0] if gq is not None else None
+            me_ = self._qual(scope)
+            if gfn is not None and me_ != gq and not me_.startswith(gq + ".") and [ast.unparse(d_).split(".")[-1] for d_ in gfn.decorator_list] == ["inlineCallbacks"] \
+                    and isinstance(grecv, ast.Name) and gq not in self._kept_closures(self._qual(scope)):
+                try:
+                    body0 = copy.deepcopy(gfn)
+
+                    class RV(ast.NodeTransformer):
+                        def visit_FunctionDef(self, node):
+                            return node if node is not body0 else self.generic_visit(node)
+
+                        def visit_Expr(self, node):
+                            v_ = node.value
+                            if isinstance(v_, ast.Call) and ast.unparse(v_.func).split(".")[-1] == "returnValue" and len(v_.args) <= 1:
+                                return ast.copy_location(ast.Return(value=v_.args[0] if v_.args else None), node)
+                            return node
+                    body0 = RV().visit(body0)
+                    prelude, body = _instantiate(body0, "plain", gen_call, grecv, self._caller_names(scope), self._stable_attr)
+                    if not _always_leaves(body):
+                        body = body + [ast.fix_missing_locations(ast.copy_location(ast.Return(value=None), st))]
+                    new = prelude + _elim_returns(body, gen_target)
+                    if any(isinstance(n, ast.Return) for n in _shallow(new)):
+                        raise _Bail("residual return")
+                    for n in new:
+                        ast.fix_missing_locations(n)
+                    self.changed = True
+                    self.inlined_once = getattr(self, "inlined_once", set()) | {gq}
+                    self.log.append("inlined coroutine helper %s at line %d" % (gq, getattr(st, "lineno", 0)))
+                    return new or [_pass_like(st)]
+                except _Bail as e:
+                    self.log.append("not inlined coroutine helper %s at line %d: %s" % (gq, getattr(st, "lineno", 0), e))
         st = self._subst_expr_helpers(st, scope)
         call, ctx = None, None
         if isinstance(st, ast.Expr) and isinstance(st.value, ast.Call):
